@@ -1,7 +1,7 @@
 #!/bin/sh
 # usage: selftest/try_mutant.sh <patch.diff> <Cxx> [<Cyy> ...]
 # applies the patch to a scratch worktree of /repo (outside /repo and /verif), runs the quick checks against it
-# (VERIF_REPO), removes the worktree.  /repo itself is never touched, so several mutants can run in parallel.
+# (VERIF_REPO; with STOP_ON_DETECT=1 it stops after the first check that reports), removes the worktree.  /repo itself is never touched, so several mutants can run in parallel.
 set -u
 P="$1"; shift
 TAG=$(echo "$P" | tr '/.' '__')
@@ -21,5 +21,6 @@ for c in "$@"; do
   echo "MUTANT $P check=$c exit=$code violations=$nv"
   echo "$out" | grep -A1 "^VIOLATION" | head -4
   echo "$out" | grep "HARNESS-ERROR" | head -2
+  if [ "${STOP_ON_DETECT:-0}" = 1 ] && [ $code = 1 ]; then break; fi
 done
 git -C /repo worktree remove --force "$W"; rm -rf "$O"
